@@ -313,6 +313,11 @@ class AsyncAndSyncPairProxyDecorator(AsyncProxyDecorator):
         AsyncProxyDecorator.__init__(
             self, fn, asyncio_fn=asyncio_fn, allow_sync_call=allow_sync_call
         )
+        # sync_fn is called through the binder, which passes the instance or class
+        # explicitly, so a classmethod/staticmethod object (not callable by itself)
+        # is replaced by the function it wraps.
+        if isinstance(sync_fn, (classmethod, staticmethod)):
+            sync_fn = sync_fn.__func__
         self.sync_fn = sync_fn
 
     def __call__(self, *args, **kwargs):
